@@ -93,32 +93,30 @@ def r_C01ef(root):
                     if not okc:
                         out.append(Finding("C01", "C01.e", MM, "TextXMetaModel._init_obj_attrs", "many=%s base_type=%s auto_init_attributes=%s bool_assignment=%s" % (many, base, auto, boo),
                                            "attribute is initialised to %s, documented default is %s%s" % (sorted(vals), exp, (" (depending on the extra condition %s)" % unk[0]) if unk else ""), witness="grammar with a repeated plain assignment of a base type (a=INT a=INT) and auto_init_attributes=False" if many else None))
-    # python_type covers the base types
+    # python_type covers the base types: by evaluation of python_type for every documented base type (module-level tables evaluated too)
+    from sa import pyeval as _pe
+    from sa.exprs import HS as _HS
     lang = load(root, L); pt = find(lang, "python_type")
-    d = next((n for n in ast.walk(pt) if isinstance(n, ast.Dict)), None)
-    if d is None: raise AnalysisError("python_type: table not found")
-    tab = {k.value: ast.unparse(v) for k, v in zip(d.keys, d.values) if isinstance(k, ast.Constant)}
-    SPEC = {"ID": "str", "BOOL": "bool", "INT": "int", "FLOAT": "float", "STRICTFLOAT": "float", "STRING": "str", "NUMBER": "float", "BASETYPE": "str"}
-    base_names = None
-    modseq = {n.targets[0].id: n.value for n in lang.body if isinstance(n, ast.Assign) and len(n.targets) == 1 and isinstance(n.targets[0], ast.Name) and isinstance(n.value, (ast.List, ast.Tuple))}
-    def _seq_names(x, depth=0):
-        """the rule objects a list / tuple display enumerates (module-level sequences and *unpacking followed)"""
-        got = []
-        for e in x.elts:
-            if isinstance(e, ast.Starred): e = e.value
-            if isinstance(e, ast.Name) and e.id in modseq and depth < 4: got += _seq_names(modseq[e.id], depth + 1)
-            elif isinstance(e, ast.Name): got.append(e.id)
-        return got
+    SPEC = {"ID": str, "BOOL": bool, "INT": int, "FLOAT": float, "STRICTFLOAT": float, "STRING": str, "NUMBER": float, "BASETYPE": str}
+    declared = set()
     for n in lang.body:
-        if isinstance(n, ast.Assign) and ast.unparse(n.targets[0]) == "BASE_TYPE_RULES":
-            for x in ast.walk(n.value):
-                if isinstance(x, (ast.List, ast.Tuple)) and not isinstance(getattr(x, "_parent", None), (ast.List, ast.Tuple)): base_names = _seq_names(x)
-                elif isinstance(x, ast.Name) and x.id in modseq and isinstance(getattr(x, "_parent", None), ast.comprehension): base_names = _seq_names(modseq[x.id])
-    if not base_names: raise AnalysisError("BASE_TYPE_RULES table not found")
-    for nm in base_names:
-        inst += 1; okc = tab.get(nm) == SPEC.get(nm)
-        ob("C01", "C01.e", L, "python_type", "%s -> %s" % (nm, tab.get(nm)), okc)
-        if not okc: out.append(Finding("C01", "C01.e", L, "python_type", "%s: %s" % (nm, tab.get(nm)), "base type %s maps to Python type %s, documented %s" % (nm, tab.get(nm), SPEC.get(nm))))
+        if isinstance(n, ast.Assign) and isinstance(n.value, ast.Call):
+            for k in n.value.keywords:
+                if k.arg == "rule_name" and isinstance(k.value, ast.Constant): declared.add(k.value.value)
+            if len(n.value.args) >= 2 and isinstance(n.value.args[1], ast.Constant) and isinstance(n.value.args[1].value, str): declared.add(n.value.args[1].value)      # RegExMatch(to_match, rule_name, ...)
+    if not set(SPEC) <= declared: raise AnalysisError("lang.py: base type rules %s not found" % sorted(set(SPEC) - declared))
+    def _rule(*a, **k): return _HS({".kind": "rule", ".rule_name": k.get("rule_name", a[1] if len(a) > 1 else None), ".root": k.get("root"), ".nodes": k.get("nodes")})
+    pps = [a.arg for a in pt.args.args]
+    for nm, want in list(SPEC.items()) + [("Person", "Person"), ("OBJECT", "OBJECT")]:
+        inst += 1
+        env = {"__module__": lang, "__functions__": {k_: v_ for k_, v_ in helper_functions(root, L, "python_type").items() if k_ != "python_type"}, "_": _pe.PyFn(_rule), "RegExMatch": _pe.PyFn(_rule), "OrderedChoice": _pe.PyFn(_rule), "Sequence": _pe.PyFn(_rule), pps[0]: nm}
+        try: got = _pe.run_block(pt.body, env)
+        except _pe.Raised as r_: got = "raises " + r_.cls
+        except _pe.Unsupported as u_: raise AnalysisError("python_type: outside the evaluated subset: %s" % u_)
+        okc = (got == want) if isinstance(want, type) else got == want
+        shown = got.fn.__name__ if isinstance(got, _pe.PyFn) and isinstance(got.fn, type) else got
+        ob("C01", "C01.e", L, "python_type", "%s -> %s" % (nm, shown), bool(okc))
+        if not okc: out.append(Finding("C01", "C01.e", L, "python_type", "%s: %s" % (nm, shown), "python_type(%r) gives %s, documented %s" % (nm, shown, want.__name__ if isinstance(want, type) else "the name itself (not a base type)")))
     # C01.g (use_regexp_group) is decided by evaluation: C01.k (sa/rules/cpn.py)
     return inst, out
 def r_C01i(root):
